@@ -31,7 +31,7 @@ def timed_impl(impl, line):
     def onalarm(signum, frame):
         raise CallTimeout()
     old = signal.signal(signal.SIGALRM, onalarm)
-    signal.setitimer(signal.ITIMER_REAL, call_limit(LINE_LIMIT_S))
+    signal.setitimer(signal.ITIMER_REAL, call_limit(LINE_LIMIT_S * LIMIT_SCALE["x"]))
     try:
         return impl(line)
     except CallTimeout:
@@ -86,7 +86,7 @@ def run_streams(res: Result, streams: list[Stream], broken, known_match=None, ma
             if st.oracle:
                 def timed_oracle(l, o, f=st.oracle):
                     try:
-                        return timed_call(f, 20 * call_limit(LINE_LIMIT_S), l, o)
+                        return timed_call(f, 20 * call_limit(LINE_LIMIT_S * LIMIT_SCALE["x"]), l, o)
                     except CallTimeout:
                         TIMEOUTS["seen"] += 1
                         return "the evaluation of the property on this reply called the implementation and did not return (Timeout)"
@@ -220,6 +220,8 @@ def standard_main(pid, tier, level, theorems, imports, build_streams, known_matc
     res.assumptions = list(assumptions)
     if level == "other":
         res.cov["explanation"] = ("partial proof + verified per-input decision: " + rule + " | not proved for all inputs: " + "; ".join(assumptions))
+    if tier == "thorough" and "VERIF_LINE_LIMIT_S" not in os.environ:
+        LIMIT_SCALE["x"] = 15.0
     try:
         broken, info = prepare(res, theorems, imports)
         rng = random.Random(seed() * 1000003 + int(pid[1:]))
